@@ -76,7 +76,7 @@ def run(ctx):
                        "edges, known and custom codes, non-ASCII messages) framed by the real SelectObjectContentEventStream; "
                        "the bytes are compared with the model's frames AND decoded by the model's independent decoder and "
                        "compared with the events sent. Non-trivial: a sequence with at least one frame; distinct sequences.")
-    r = ctx.coq()
+    r = ctx.coq(imports=IMPORTS)
     if not r["ok"]:
         ctx.violation(dict(stage="coq", kind="proof obligation or audit failed", issues=r["issues"]), has_input=False)
     n = 40 if ctx.quick else 400
